@@ -18,19 +18,20 @@ from hio import hioing
 
 ID = "C27"
 LEVEL = "exploration"
-RULE = ("histories of Namer ops (add/rem/changeAddr/changeName/clear) over names {a,b,''} x addrs {x,y,''} "
+RULE = ("histories of Namer ops (add/rem/changeAddr/changeName/clear) over names {a,ab,''} x addrs {x,xy,''} (substring-related on purpose) "
         "(+None for rem): every history up to length 3 (quick) / 4 (thorough) enumerated, plus random histories "
-        "of length <= 60 over a 4x4 domain. Non-trivial = the history contains at least one rejected-or-no-change "
+        "of length <= 60 over a 4x4 domain of substring-related strings; after every op the dicts returned by the addrByName/nameByAddr properties are edited by the caller and the registry must be unaffected. Non-trivial = the history contains at least one rejected-or-no-change "
         "op AND at least one op that changed the maps; distinct = by the sequence of (op kind, outcome) plus final map.")
 ASSUMPTIONS = ["names/addresses are hashable strings; Namer is used single-threaded",
                "the reference model encodes the return values documented in the method docstrings"]
 NSHARDS = {"quick": 8, "thorough": 16}
-REQUIRE = {"constructor_cases": 500, "constructor_conflicts_rejected": 200, "hook_evaluations": 1000, "rejected_ops": 100, "changing_ops": 100, "raised_ops": 50}
+REQUIRE = {"returned_map_edits_probed": 5000, "constructor_cases": 500, "constructor_conflicts_rejected": 200, "hook_evaluations": 1000, "rejected_ops": 100, "changing_ops": 100, "raised_ops": 50}
 EXHAUSTIVE = {"quick": "all op histories of length <= 3 over the 44-op alphabet",
               "thorough": "all op histories of length <= 4 over the 44-op alphabet"}
 
-N3 = ["a", "b", ""]
-A3 = ["x", "y", ""]
+# values are substring-related on purpose: a membership test on strings (`addr in other_addr`) must not pass for equality
+N3 = ["a", "ab", ""]
+A3 = ["x", "xy", ""]
 
 
 def alphabet(names, addrs):
@@ -58,7 +59,7 @@ def cases(tier, seed, shard, nshards):
             if i % nshards == shard:
                 yield {"kind": "enum", "ops": [ALPHA3[k] for k in hist]}
             i += 1
-    # constructor entries: every list of <= 3 (quick) / 4 (thorough) pairs over {a,b,''} x {x,y,''}, as a list and as a
+    # constructor entries: every list of <= 3 (quick) / 4 (thorough) pairs over {a,ab,''} x {x,xy,''}, as a list and as a
     # one-shot iterator; a conflicting or incomplete entry must make the constructor raise NamerError (it adds the
     # entries through addNameAddr), otherwise the maps must equal the sequentially built model
     pairs = [[n, a] for n in N3 for a in A3]
@@ -69,8 +70,8 @@ def cases(tier, seed, shard, nshards):
             i += 1
     rng = random.Random(f"{seed}:C27:{shard}")
     nrand = (2000 if tier == "quick" else 100000) // nshards
-    N4 = ["a", "b", "c", "d", "", None]
-    A4 = ["x", "y", "z", "w", "", None]
+    N4 = ["a", "ab", "b", "ba", "", None]
+    A4 = ["x", "xy", "y", "/x/y", "", None]
     for _ in range(nrand):
         ops = []
         for _ in range(rng.randint(5, 60)):
@@ -275,6 +276,16 @@ def run_case(case, ctx):
             ctx.violation("model-state-mismatch:" + op,
                           f"after {op}({n!r},{a!r}): real {namer.addrByName}/{namer.nameByAddr} "
                           f"model {model.ab}/{model.na}")
+            return
+        # a caller that edits the dicts the properties hand out must not reach the registry (they are documented copies)
+        d1, d2 = namer.addrByName, namer.nameByAddr
+        d1["~caller"] = "~edit"; d1.pop(next(iter(model.ab), None), None)
+        d2.clear()
+        ctx.count("returned_map_edits_probed")
+        if namer.addrByName != model.ab or namer.nameByAddr != model.na or namer.countNameAddr != len(model.ab):
+            ctx.violation("caller-edit-of-returned-map-reached-registry:" + op,
+                          f"after {op}({n!r},{a!r}) the caller edited the dicts returned by addrByName/nameByAddr; "
+                          f"registry now {namer.addrByName}/{namer.nameByAddr}, model {model.ab}/{model.na}")
             return
         # public read API agrees with the maps
         for nn, aa in model.ab.items():
